@@ -52,7 +52,9 @@ def serialize_json_safe(obj: Any) -> Any:
     """Return ``obj`` if JSON serializable, else ``safe_repr`` string."""
 
     try:
-        json.dumps(obj, ensure_ascii=False)
+        # Trace drivers emit records with ``sort_keys=True``: a mapping whose keys
+        # cannot be ordered (e.g. ``{1: ..., "a": ...}``) is not serializable there.
+        json.dumps(obj, ensure_ascii=False, sort_keys=True)
         return obj
     except Exception:
         return safe_repr(obj)
